@@ -11,9 +11,9 @@
      * debug_assert!(c) contributes c = true;
      * memory is abstract: a bucket is a Lasso.Arena.block, the raw copy is Base.bwrite, and the copy
        contributes "destination range inside the allocation" -- the memory-safety obligation;
-     * the global allocator never fails (Bucket::with_capacity(..)? always continues);
+     * the global allocator never fails; Bucket::with_capacity(cap)? continues iff cap <= isize::MAX (wc_spec);
      * a callee is replaced by its SPECIFICATION (alloc_spec, free_spec, Arena.push_slice,
-       Arena.fresh_block, Arena.block_clear) and contributes the specification's PRECONDITION as an
+       wc_spec, Arena.block_clear) and contributes the specification's PRECONDITION as an
        obligation of the call site; that each callee's generated body meets its specification under
        that precondition is a separate theorem of ArenaGenProofs.v.
    The interpreter returns [None]/[OStuck] for an ill-formed program (unbound name, wrong kind). *)
@@ -99,7 +99,11 @@ Record fundef := mkFun { fd_params : list string; fd_body : stmt }.
 Record newdef := mkNew { nd_params : list string; nd_buckets : list nzexpr; nd_cap : nzexpr; nd_usage : expr; nd_limit : expr }.
 
 (* Bucket::with_capacity: the allocation size expression and  Ok(Self { index, capacity, items }) *)
-Record wcdef := mkWc { wc_param : string; wc_asserted_size : option expr; wc_size : expr; wc_index : expr; wc_capacity : nzexpr }.
+(*   LayoutChecked k:    Layout::from_size_align(size, 1).map_err(|_| LassoError::new(k))?     (Err k iff size > isize::MAX)
+     LayoutUnchecked a:  Layout::from_size_align_unchecked(size, 1), optionally preceded by the debug_assert on
+                         from_size_align(a, 1).is_ok()   (the form before commit 784e567; obligation size <= isize::MAX) *)
+Inductive layout_kind := LayoutChecked (k : err) | LayoutUnchecked (asserted : option expr).
+Record wcdef := mkWc { wc_param : string; wc_layout : layout_kind; wc_size : expr; wc_index : expr; wc_capacity : nzexpr }.
 
 (* ---------------- values with collected obligations ---------------- *)
 
@@ -197,12 +201,12 @@ Definition push_pre (b : block) (s : str) : Prop :=
 (* Bucket::is_full *)
 Definition is_full_spec (b : block) : bool := bused b =? bcap b.
 
-(* isize::MAX: the largest size a Layout may have (for align 1) *)
-Definition isize_max : N := 9223372036854775807.
-
-(* Bucket::with_capacity(cap) = Arena.fresh_block id cap  (id: the model's fresh identity);
-   Layout::from_size_align_unchecked(cap, 1) requires cap <= isize::MAX *)
-Definition wc_pre (cap : N) : Prop := 0 < cap /\ cap <= isize_max.
+(* Bucket::with_capacity(cap): a Layout of cap bytes (align 1) exists iff cap <= isize::MAX (Base.isize_max);
+   otherwise Err(FailedAllocation).  The global allocator itself is assumed not to fail.  [id] is the model's
+   fresh block identity.  Precondition: cap is a NonZeroUsize. *)
+Definition wc_spec (id cap : N) : res block :=
+  if cap <=? isize_max then Ok (fresh_block id cap) else Err FailedAllocation.
+Definition wc_pre (cap : N) : Prop := 0 < cap /\ cap <= usize_max.
 
 (* ---------------- Arena-level interpreter ---------------- *)
 
@@ -324,9 +328,11 @@ Fixpoint exec (s : str) (p : stmt) (st : state) : outcome :=
   | SNewBucketQ x z =>
       match eval_nz cx z with
       | Some (inl cap, q) =>
-          ONormal (mkState (mkArena (blocks a) (bucket_cap a) (usage a) (limit a) (next_bid a + 1))
-                           nums ((x, BkOwned (fresh_block (next_bid a) cap)) :: bks) refs
-                           (ok /\ q /\ wc_pre cap))
+          match wc_spec (next_bid a) cap with
+          | Ok b => ONormal (mkState (mkArena (blocks a) (bucket_cap a) (usage a) (limit a) (next_bid a + 1))
+                                     nums ((x, BkOwned b) :: bks) refs (ok /\ q /\ wc_pre cap))
+          | Err k => OReturn a (RVErr k) (ok /\ q /\ wc_pre cap)     (* `?`: nothing was allocated *)
+          end
       | Some (inr k, q) => OReturn a (RVErr k) (ok /\ q)
       | None => OStuck end
   | SPushSlice r x =>
@@ -507,37 +513,50 @@ Definition as_bref (o : option (block * retval)) : option (block * sref) :=
 Definition plain_cx (nums : list (string * N)) : ectx :=
   mkEctx (fun _ => None) (fun x => lookup x nums) 0 true (fun _ => None) None.
 
-(* Bucket::with_capacity(cap): allocate wc_size bytes (align 1), fields index/capacity as written *)
-Definition run_wc (w : wcdef) (id cap : N) : option block * Prop :=
+(* Bucket::with_capacity(cap): a Layout of wc_size bytes (align 1), then the fields index/capacity as written *)
+Definition run_wc (w : wcdef) (id cap : N) : option (res block) * Prop :=
   let cx := plain_cx [(wc_param w, cap)] in
   match eval cx (wc_size w), eval cx (wc_index w), eval_nz cx (wc_capacity w) with
   | Some (size, q1), Some (idx, q2), Some (inl c, q3) =>
-      let asserted := match wc_asserted_size w with
-                      | Some e => match eval cx e with Some (n, q) => q /\ n <= isize_max | None => False end
-                      | None => True end in
-      (Some (mkBlock id c idx (repeat 0 (N.to_nat size))),
-       q1 /\ q2 /\ q3 /\ size <= isize_max /\ asserted)
+      let blk := mkBlock id c idx (repeat 0 (N.to_nat size)) in
+      match wc_layout w with
+      | LayoutChecked k =>
+          if size <=? isize_max then (Some (Ok blk), q1 /\ q2 /\ q3) else (Some (Err k), q1)
+      | LayoutUnchecked asserted =>
+          let dbg := match asserted with
+                     | Some e => match eval cx e with Some (n, q) => q /\ n <= isize_max | None => False end
+                     | None => True end in
+          (Some (Ok blk), q1 /\ q2 /\ q3 /\ size <= isize_max /\ dbg)
+      end
   | _, _, _ => (None, False)
   end.
 
-(* Arena::new *)
-Fixpoint new_buckets (cx : ectx) (id : N) (zs : list nzexpr) : option (list block * Prop) :=
+(* Arena::new: the buckets of the vec![..] in order (each by wc_spec; the first refusal is returned by `?`) *)
+Fixpoint new_buckets (cx : ectx) (id : N) (zs : list nzexpr) : option (res (list block) * Prop) :=
   match zs with
-  | [] => Some ([], True)
+  | [] => Some (Ok [], True)
   | z :: t =>
-      match eval_nz cx z, new_buckets cx (id + 1) t with
-      | Some (inl cap, q), Some (bs, q') => Some (fresh_block id cap :: bs, q /\ wc_pre cap /\ q')
-      | _, _ => None
+      match eval_nz cx z with
+      | Some (inl cap, q) =>
+          match wc_spec id cap with
+          | Err k => Some (Err k, q /\ wc_pre cap)
+          | Ok b => match new_buckets cx (id + 1) t with
+                    | Some (Ok bs, q') => Some (Ok (b :: bs), q /\ wc_pre cap /\ q')
+                    | Some (Err k, q') => Some (Err k, q /\ wc_pre cap /\ q')
+                    | None => None end
+          end
+      | _ => None
       end
   end.
 
-Definition run_new (nd : newdef) (args : list N) : option arena * Prop :=
+Definition run_new (nd : newdef) (args : list N) : option (res arena) * Prop :=
   match zip_args (nd_params nd) args with
   | Some nums =>
       let cx := plain_cx nums in
       match new_buckets cx 0 (nd_buckets nd), eval_nz cx (nd_cap nd), eval cx (nd_usage nd), eval cx (nd_limit nd) with
-      | Some (bs, q0), Some (inl c, q1), Some (u, q2), Some (l, q3) =>
-          (Some (mkArena bs c u l (N.of_nat (List.length bs))), q0 /\ q1 /\ q2 /\ q3)
+      | Some (Err k, q0), _, _, _ => (Some (Err k), q0)
+      | Some (Ok bs, q0), Some (inl c, q1), Some (u, q2), Some (l, q3) =>
+          (Some (Ok (mkArena bs c u l (N.of_nat (List.length bs)))), q0 /\ q1 /\ q2 /\ q3)
       | _, _, _, _ => (None, False)
       end
   | None => (None, False)
@@ -553,11 +572,9 @@ Definition arena_typed (a : arena) : Prop :=
   usage a <= usize_max /\ limit a <= usize_max /\ bucket_cap a <= usize_max /\
   Forall (fun b => bcap b <= usize_max) (blocks a).
 
-(* the domain of store_str's obligations: representable sizes, stated as weakly as the proofs allow.
-   (usage + 2*cap and usage + len are computed in usize; 2*cap and len become Layout sizes) *)
+(* the domain of store_str's obligations: usage + 2*cap and usage + len are computed in usize *)
 Definition store_dom (a : arena) (s : str) : Prop :=
-  usage a + 2 * bucket_cap a <= usize_max /\ usage a + slen s <= usize_max /\
-  2 * bucket_cap a <= isize_max /\ slen s <= isize_max.
+  usage a + 2 * bucket_cap a <= usize_max /\ usage a + slen s <= usize_max.
 
 Lemma last_opt_In {A} (l : list A) b : last_opt l = Some b -> In b l.
 Proof.
